@@ -59,11 +59,19 @@ func (cache *Cache) Add(keyID string, keyValue []byte) {
 
 // Get value by keyID
 func (cache *Cache) Get(keyID string) ([]byte, bool) {
-	cache.mutex.RLock()
-	defer cache.mutex.RUnlock()
+	// lru.Cache.Get moves the entry to the front of its list, so readers need the exclusive lock too
+	cache.mutex.Lock()
+	defer cache.mutex.Unlock()
 	value, ok := cache.lru.Get(keyID)
 	if ok {
-		return value.([]byte), ok
+		stored := value.([]byte)
+		if stored == nil {
+			return nil, ok
+		}
+		// the stored slice is wiped in place when its entry is evicted: hand out a copy
+		result := make([]byte, len(stored))
+		copy(result, stored)
+		return result, ok
 	}
 	return nil, ok
 }
